@@ -6,5 +6,5 @@ CONSTANTS
   MaxOps = 8
 VIEW view
 INVARIANTS TypeOK UpIntact DownIntact ClosedEverywhere
-PROPERTIES Delivered
+PROPERTIES Delivered NoReaderLeftBehind
 CHECK_DEADLOCK FALSE
